@@ -437,6 +437,7 @@ func rejectionWhitelist(c *Ctx, rule string, db *Result) {
 	fname := shortFn(db.Root)
 	c.rule(rule, "no extra rejection on the symmetric layer: every rejecting branch of DecryptBytes after the key unwrap is one of {base64 error, len(data) < NonceSize, len(data) < BlockSize, len(data) % BlockSize != 0, cipher construction / Open error, empty plaintext, pad == 0, pad > len(plaintext), pad > BlockSize, unknown algorithm}")
 	n := 0
+	nnHelper := &c09{c: c, retSummary: map[string]int{}, inProgress: map[string]bool{}}
 	for _, t := range db.Terms {
 		if t.Kind != "return" || t.accepting(db.Root) {
 			continue
@@ -460,11 +461,18 @@ func rejectionWhitelist(c *Ctx, rule string, db *Result) {
 		if !found || last.Seq < unwrap.Seq {
 			continue
 		}
-		n++
 		a := atom(last)
 		ok := false
 		why := ""
 		b, isBin := last.Cond.(*BinV)
+		// a rejection on "x == nil" where x is provably non-nil here (result of a module function that returns non-nil
+		// on success, after its error was found nil) is not a path of the program: a defensive check that never fires
+		if isBin && b.Op == token.EQL && isNilConst(b.Y) && last.Pol {
+			if nn, _ := nnHelper.nonNil(t, len(t.St.facts)-1, b.X); nn {
+				continue
+			}
+		}
+		n++
 		isLen := func(v Val) bool { cv, ok := v.(*CallV); return ok && cv.Callee == "len" }
 		isGetter := func(v Val, name string) bool { cv, ok := v.(*CallV); return ok && strings.HasSuffix(cv.Callee, name) }
 		isPad := func(v Val) bool {
